@@ -4,7 +4,8 @@ CONSTANTS
   KeyOrd <- Ord4
   InitEx <- Init4
   TO <- TOsmall
-  MaxNow = 3
+  RevAhead = {0, 1}
+  MaxNow = 4
   MaxPkt = 2
   MaxScan = 2
   Batch = 1000
